@@ -10,7 +10,12 @@ import (
 	"verif/engine/core"
 	"verif/ref/rules"
 
+	"verif/gen/keys"
+	"verif/gen/ops"
+
 	"github.com/trustbloc/sidetree-go/pkg/patch"
+	"github.com/trustbloc/sidetree-go/pkg/versions/1_0/model"
+	"github.com/trustbloc/sidetree-go/pkg/versions/1_0/operationparser"
 	"github.com/trustbloc/sidetree-go/pkg/versions/1_0/docvalidator/didvalidator"
 	"github.com/trustbloc/sidetree-go/pkg/versions/1_0/docvalidator/docvalidator"
 	"github.com/trustbloc/sidetree-go/pkg/versions/1_0/operationparser/patchvalidator"
@@ -390,6 +395,29 @@ func Run(r *core.Run) {
 	add("replace/duplicate-service-inside", M{"action": "replace", "document": M{"services": []any{svc("s", "T", "https://a.example/"), svc("s", "T", "https://a.example/")}}}, &no)
 	add("replace/document-not-object", M{"action": "replace", "document": []any{}}, &no)
 
+	// deltas around an invalid patch (nil marks its place)
+	deltaParser := operationparser.New(ops.Proto())
+	deltaCommitment := ops.Commitment(keys.New("Ed25519", 1300), 18)
+	vAka := []byte(`{"action":"add-also-known-as","uris":["https://delta.example/"]}`)
+	vReplace, _ := json.Marshal(M{"action": "replace", "document": M{"publicKeys": []any{good}}})
+	deltaLists := [][][]byte{{nil, vReplace}, {vAka, nil, vReplace}, {vReplace, nil}, {nil, vAka}, {vAka, nil}, {nil, vReplace, vAka}}
+	deltaListNames := []string{"before-replace", "between-valid-and-replace", "behind-replace", "before-valid", "behind-valid", "before-replace-and-valid"}
+	for li, l := range deltaLists {
+		// vacuity: the surrounding patches alone make a valid delta
+		var ps []patch.Patch
+		for _, t := range l {
+			if t != nil {
+				p, err := patch.FromBytes(t)
+				if err != nil {
+					core.Engine("c13: delta fixture does not parse: %v", err)
+				}
+				ps = append(ps, p)
+			}
+		}
+		if err := deltaParser.ValidateDelta(&model.DeltaModel{UpdateCommitment: deltaCommitment, Patches: ps}); err != nil {
+			core.Engine("c13: delta fixture %s is not valid without the invalid patch: %v", deltaListNames[li], err)
+		}
+	}
 	core.Parallel(len(cases), func(i int) {
 		c := cases[i]
 		text, _ := json.Marshal(c.p)
@@ -414,6 +442,29 @@ func Run(r *core.Run) {
 			r.Class("valid")
 		} else {
 			r.Class("invalid")
+			// the same constraints hold for every patch of a delta, wherever it stands: before, between and behind valid patches
+			// and a valid replace patch (which resets the document, not the rules)
+			for li, l := range deltaLists {
+				label := fmt.Sprintf("%s/in-delta/%s", c.label, deltaListNames[li])
+				r.Case(label, func() *core.Fail {
+					var ps []patch.Patch
+					for _, t := range l {
+						if t == nil {
+							t = text
+						}
+						p, err := patch.FromBytes(t)
+						if err != nil {
+							core.Engine("c13: generated patch does not parse: %s: %v", t, err)
+						}
+						ps = append(ps, p)
+					}
+					if err := deltaParser.ValidateDelta(&model.DeltaModel{UpdateCommitment: deltaCommitment, Patches: ps}); err == nil {
+						return &core.Fail{Key: label, What: fmt.Sprintf("a delta with the invalid patch %s (%s) passed ValidateDelta", text, deltaListNames[li]), Detail: M{"patch": string(text), "position": deltaListNames[li]}}
+					}
+					return nil
+				})
+				r.Class("invalid-in-delta")
+			}
 		}
 	})
 	// the id alphabet, character by character: every code point of the Basic Multilingual Plane (thorough: planes 0-2), alone and
